@@ -197,6 +197,13 @@ func (fr *frame) indexAddr(ins *ssa.IndexAddr) Value {
 		if k, ok := constOf(abs); ok {
 			c := ex.kid(xv.Arr, k)
 			if c == nil {
+				// only possible on an infeasible path (e.g. an arm executed speculatively during state merging)
+				if ex.mergeDepth > 0 {
+					panic(mergeFail{"element beyond backing array in speculative arm"})
+				}
+				if ex.sat() == smt.Unsat {
+					panic(pathEnd{"infeasible"})
+				}
 				panic("symgo internal: slice element beyond backing array")
 			}
 			return Ptr{Cell: c}
